@@ -196,6 +196,17 @@ static void op_c10_synth(Exec& x, const Json& op, int)
 					if (!any) c.info[p] = CInfo();
 				}
 				for (auto& m : c.maps) m.deleted.clear();
+				// a disk left with nothing at all (it was only remembered for its freed blocks) is not written by the tool:
+				// not a shape this op synthesises
+				{
+					std::vector<bool> has(c.maps.size(), false);
+					for (auto& f2 : c.files) has[f2.map_idx] = true;
+					for (auto& l : c.links) has[l.map_idx] = true;
+					for (auto& d : c.dirs) has[d.map_idx] = true;
+					bool empty_map = false;
+					for (bool h : has) if (!h) empty_map = true;
+					if (empty_map) continue;
+				}
 				// a synced block needs info
 				bool okinfo = true;
 				for (uint32_t p = 0; p < c.blockmax; ++p) for (auto& b : sm.at[p]) if (b.file_idx >= 0 && b.state == BS_BLK && !c.info[p].present) okinfo = false;
